@@ -1092,6 +1092,116 @@ def gate_schedules(n_tasks, n_msgs):
             yield list(p)
 
 
+def _methods_and_multipart():
+    """oracle-only scenarios: the body is what the client sent whatever the request method says; a multipart form
+    read from the stream sees a disconnect before the final chunk as ClientDisconnect, like every other reader"""
+    def exc_name(exc):
+        return type(exc).__name__
+
+    out, n = [], 0
+    pieces = [b'{"a": [1, ', b'2, 3], "b"', b': "x"}']
+    whole = b"".join(pieces)
+    mp = (b'--bd\r\nContent-Disposition: form-data; name="f"\r\n\r\nvalue\r\n'
+          b'--bd\r\nContent-Disposition: form-data; name="u"; filename="u.bin"\r\n\r\n' + b"x" * 300 + b'\r\n--bd--\r\n')
+    mp_pieces = [mp[:40], mp[40:200], mp[200:]]
+
+    def asgi(method, ctype, chunks, disconnect_after, access):
+        msgs = [{"type": "http.request", "body": c, "more_body": True} for c in chunks]
+        if disconnect_after is None:
+            msgs[-1]["more_body"] = False
+        else:
+            msgs = msgs[:disconnect_after] + [{"type": "http.disconnect"}]
+        calls = [0]
+
+        async def receive():
+            calls[0] += 1
+            if msgs:
+                return msgs.pop(0)
+            await asyncio.Event().wait()
+
+        async def main():
+            scope = {"type": "http", "method": method, "path": "/", "query_string": b"",
+                     "headers": [(b"content-type", ctype)]}
+            req = asgi_requests.Request(scope, receive)
+            res = []
+            for _ in range(2):
+                try:
+                    if access == "body":
+                        res.append(("ok", await req.body))
+                    elif access == "json":
+                        res.append(("ok", _json.dumps(await req.json, sort_keys=True)))
+                    elif access == "stream":
+                        got = []
+                        async for c in req.stream():
+                            got.append(c)
+                        res.append(("ok", b"".join(got)))
+                        return res
+                    else:
+                        form = await req.form
+                        items = []
+                        for k, v in form.multi_items():
+                            items.append((k, v if isinstance(v, str) else await v.aread()))
+                        res.append(("ok", items))
+                except BaseException as exc:  # noqa
+                    res.append(("raise", exc_name(exc)))
+                    if access == "stream":
+                        return res
+            try:
+                await req.close()
+            except BaseException:  # noqa
+                pass
+            return res
+
+        return asyncio.run(asyncio.wait_for(main(), 10))
+
+    for method in ("GET", "HEAD", "POST", "PUT", "DELETE", "OPTIONS", "PATCH"):
+        for access, want in (("body", whole), ("stream", whole), ("json", _json.dumps(_json.loads(whole), sort_keys=True))):
+            for disc in (None, 0, 1, 2):
+                n += 1
+                label = "asgi_method %s %s %s" % (method, access, "complete" if disc is None else "disconnect-after-%d" % disc)
+                try:
+                    res = asgi(method, b"application/json", pieces, disc, access)
+                except BaseException as exc:  # noqa
+                    res = [("raise", "harness: " + exc_name(exc))]
+                expect = ("ok", want) if disc is None else ("raise", "ClientDisconnect")
+                bad = [r for r in res if r != expect]
+                if bad:
+                    out.append({"line": label, "out": repr(res)[:200],
+                                "why": "%s request, %s: expected %s on every access, got %s" % (
+                                    method, access, expect[1] if disc is not None else "the bytes the client sent", repr(bad[0])[:120])})
+        # WSGI: the method does not decide whether the body is read either
+        n += 1
+        inp = ScriptedInput(list(pieces))
+        environ = {"REQUEST_METHOD": method, "CONTENT_TYPE": "application/json", "wsgi.input": inp,
+                   "CONTENT_LENGTH": str(len(whole)), "PATH_INFO": "/", "QUERY_STRING": "", "SERVER_NAME": "t",
+                   "SERVER_PORT": "80", "wsgi.url_scheme": "http"}
+        try:
+            got = wsgi_requests.Request(environ).body
+        except BaseException as exc:  # noqa
+            got = exc_name(exc)
+        if got != whole:
+            out.append({"line": "wsgi_method %s body" % method, "out": repr(got)[:200],
+                        "why": "%s request on WSGI: body is %r, the client sent %r" % (method, got, whole)})
+    for method in ("POST", "PUT"):
+        for disc in (None, 0, 1, 2):
+            n += 1
+            label = "asgi_multipart %s %s" % (method, "complete" if disc is None else "disconnect-after-%d" % disc)
+            try:
+                res = asgi(method, b"multipart/form-data; boundary=bd", mp_pieces, disc, "form")
+            except BaseException as exc:  # noqa
+                res = [("raise", "harness: " + exc_name(exc))]
+            if disc is None:
+                ok = res and res[0] == ("ok", [("f", "value"), ("u", b"x" * 300)])
+            else:
+                ok = res and res[0] == ("raise", "ClientDisconnect")
+            if not ok:
+                out.append({"line": label, "out": repr(res)[:200],
+                            "why": "multipart form read from the stream, %s: got %s" % (
+                                "complete upload" if disc is None else
+                                "client disconnected after %d of 3 chunks (ClientDisconnect expected)" % disc, repr(res[:1])[:160])})
+    return out, n
+
+
 def extra(rng, tier):
     thorough = tier == "thorough"
     scen = []
@@ -1133,5 +1243,8 @@ def extra(rng, tier):
                 violations.append({"line": line, "out": text,
                                    "why": "stock event loop, gate schedule %s: the observed execution is not a run of the "
                                           "model (model under the recorded task-step sequence: %s)" % (",".join(ev), m)})
+    more, nmore = _methods_and_multipart()
+    violations = more + violations
     return {"violations": violations[:20], "gated_runs_on_stock_loop": len(scen), "trace_validation_mismatches": mismatches,
+            "method_and_multipart_scenarios": nmore,
             "trace_validation": "skipped (driver missing)" if model is None else "done"}
